@@ -409,6 +409,150 @@ fn gen_cull_case(r: &mut Rng, lat: bool) -> (String, String) {
     ("cull".into(), format!("{} {} {} {} {} {} {}", dx::hiso(&q), dx::hv(&d), sb, hx(max_toi), hx(target), dx::hp(&P::from(mins)), dx::hp(&P::from(maxs))))
 }
 
+/// Lattice starts over a height field ("first time of impact for ALL start poses" includes starts exactly on cell
+/// boundaries): a crater-shaped terrain (low interior, border samples higher than the moving body, sometimes a tall interior
+/// peak, removed / zig-zag cells) and a small body that starts INSIDE the terrain's bounding box with the centre of its box
+/// exactly on a grid line (one horizontal axis), on a grid point (both axes), or at a half / quarter cell, and flies
+/// horizontally (or slightly down / up) with zero, negative and positive velocity components along each axis - axis-aligned,
+/// diagonal, 2:1, shallow - until it meets the wall or a bump three or more cells away.  The grid-line coordinates are the
+/// ones the shape reports itself.  Scene poses: pure lattice translation (everything exact), lattice rotation, generic
+/// rotation; the body with or without an own rotation; either argument order; both bodies moving.  Judged by the e2e
+/// distance-sample oracle and the brute-force reduction over all triangles / segments.
+fn gen_hf_lattice_case(r: &mut Rng, lat: bool, fam: &mut std::collections::BTreeMap<String, usize>) -> Vec<(String, String)> {
+    let nh = HAXES.len();
+    let ncell: Vec<usize> = (0..2).map(|_| if lat { *r.pick(&[4usize, 8, 6, 5, 4]) } else { 4 + r.below(5) as usize }).collect();
+    let w: Vec<f64> = (0..2).map(|_| if lat { *r.pick(&[1.0, 2.0, 0.5, 1.0]) } else { r.uniform(0.7, 2.5) }).collect();
+    let sy = *r.pick(&[1.0, 0.5, 2.0]);
+    let wmin = w.iter().take(nh).cloned().fold(f64::MAX, f64::min);
+    let bsz = wmin * if lat { 0.5 } else { r.uniform(0.3, 0.9) };
+    let (sb, radb) = gen_small_body(r, lat, bsz);
+    let target = if r.below(3) == 0 { if lat { 0.125 } else { r.uniform(0.02, 0.2) } } else { 0.0 };
+    let clearance = if lat { 0.25 } else { r.uniform(0.05, 0.5) };
+    let y0 = 0.5 * sy + radb + target + clearance;
+    let wall = (y0 + radb + 1.0) / sy;
+    let (nx, nz) = (ncell[0] + 1, if DIM == 3 { ncell[1] + 1 } else { 3 });
+    let low: Vec<f64> = (0..nx * nz).map(|_| if lat { r.range(0, 2) as f64 * 0.25 } else { r.uniform(0.0, 0.5) }).collect();
+    let peak = if r.below(3) == 0 { Some((1 + r.below(nx as u64 - 2) as usize, 1 + r.below(nz as u64 - 2) as usize)) } else { None };
+    let hfun = |jx: usize, iz: usize| -> f64 {
+        if jx == 0 || jx == nx - 1 || (DIM == 3 && (iz == 0 || iz == nz - 1)) || peak == Some((jx, iz)) { wall } else { low[jx * nz + iz] } };
+    let mut st = Vec::new();
+    for jx in 0..nx - 1 { for iz in 0..(if DIM == 3 { nz - 1 } else { 1 }) { if r.below(10) == 0 { st.push((jx, iz, *r.pick(&[1u8, 1, 2, 4, 6, 3, 5]))); } } }
+    let tok = hf_grid_tok(nx, nz, &hfun, ncell[0] as f64 * w[0], sy, ncell[1] as f64 * w[1], &st);
+    let ghf = mk(&tok);
+    let lines = hf_lines(ghf.as_heightfield().unwrap());
+    // horizontal velocity
+    let sgn = |r: &mut Rng| if r.bool() { 1.0 } else { -1.0 };
+    let mut vel = V::zeros();
+    let vkind;
+    if nh == 1 { vel[HAXES[0]] = sgn(r); vkind = "axis"; } else {
+        let (a0, a1) = if r.bool() { (HAXES[0], HAXES[1 % nh]) } else { (HAXES[1 % nh], HAXES[0]) };
+        match r.below(6) {
+            0 | 1 => { vel[a0] = sgn(r); vkind = "axis"; }
+            2 => { vel[a0] = sgn(r); vel[a1] = sgn(r); vkind = "diag"; }
+            3 => { vel[a0] = sgn(r); vel[a1] = sgn(r) * 0.5; vkind = "2:1"; }
+            4 => { vel[a0] = sgn(r); vel[a1] = sgn(r) / 16.0; vkind = "shallow"; }
+            _ => { vel[a0] = sgn(r) * if lat { 0.75 } else { r.uniform(0.2, 1.0) }; vel[a1] = sgn(r) * if lat { 0.25 } else { r.uniform(0.2, 1.0) }; vkind = "oblique"; }
+        }
+    }
+    // start: per axis a grid line with three or more cells ahead, or a half / quarter cell
+    let mut start = V::zeros();
+    let mut on_line = 0; let mut neg_on_line = false;
+    let force_line = r.below(4) != 0;
+    for (k, &ax) in HAXES.iter().enumerate() {
+        let n = ncell[k] as i64;
+        let l = if vel[ax] > 0.0 { r.range(1, n - 3) } else if vel[ax] < 0.0 { r.range(3, n - 1) } else { r.range(1, n - 1) } as usize;
+        let frac: f64 = if (force_line && vel[ax] != 0.0) || r.below(3) == 0 { 0.0 } else if vel[ax] > 0.0 { *r.pick(&[0.5, 0.25]) } else if vel[ax] < 0.0 { *r.pick(&[-0.5, -0.25]) } else { *r.pick(&[0.0, 0.3, -0.3]) };   // no motion along this axis: keep the faces of the box off the grid lines (a box sliding exactly along a line only ties with the cells beyond it)
+        let (a, b2) = (lines[k][l], if frac >= 0.0 { lines[k][l + 1] } else { lines[k][l - 1] });
+        start[ax] = if frac == 0.0 { a } else { a + (b2 - a) * frac.abs() };
+        if frac == 0.0 { on_line += 1; if vel[ax] < 0.0 { neg_on_line = true; } }
+    }
+    start[1] = y0;
+    let hspeed = vel.norm();
+    vel[1] = hspeed * *r.pick(&[0.0, 0.0, 0.0, -1.0 / 16.0, -1.0 / 64.0, 1.0 / 32.0]);
+    vel *= if lat { *r.pick(&[0.5, 1.0, 4.0]) } else { r.logu(0.2, 20.0) };
+    // scene pose
+    let pk = r.below(4);
+    let m = match pk { 0 | 1 => { let mut m = Iso::identity(); m.translation.vector = dx::gen_v(r, true, 5.0); if pk == 0 { m.translation.vector = V::zeros(); } m }
+                       2 => dx::gen_iso(r, true, 5.0), _ => dx::gen_iso(r, false, 5.0) };
+    let mut ql = if r.below(3) == 0 { let mut q = dx::gen_iso(r, lat, 0.0); q.translation.vector = V::zeros(); q } else { Iso::identity() };
+    ql.translation.vector = start;
+    let pos_hf = m; let pos_b = m * ql;
+    let wv = if r.bool() { V::zeros() } else { dx::gen_v(r, true, 2.0) };
+    let (vel_hf, vel_b) = (wv, wv + m * vel);
+    *fam.entry(format!("hflat{} on-line={} neg-on-line={} vel={} pose={}", DIM, on_line, neg_on_line, vkind, ["identity", "translation", "lattice-rotation", "generic"][pk as usize])).or_insert(0) += 1;
+    let huge = ShapeCastOptions { max_time_of_impact: 1.0e6, target_distance: target, stop_at_penetration: true, compute_impact_geometry_on_penetration: false };
+    let bf = parts_cast(&pos_hf, &vel_hf, &parts(&*ghf), &pos_b, &vel_b, &parts(&*mk(&sb)), huge).ok().flatten();
+    let maxes: Vec<f64> = match bf { Some(t) if t > 1e-9 => vec![t * 4.0, t * 1.25, 1.0e4], _ => vec![64.0] };
+    let mut out = Vec::new();
+    for (k, mx) in maxes.iter().enumerate() {
+        if k >= 1 && r.below(3) != 0 { continue; }
+        let o = ShapeCastOptions { max_time_of_impact: *mx, target_distance: target, stop_at_penetration: r.below(4) != 0, compute_impact_geometry_on_penetration: r.bool() };
+        let args = if r.bool() { format!("{} {} {} {} {} {} {}", dx::hiso(&pos_hf), dx::hv(&vel_hf), tok, dx::hiso(&pos_b), dx::hv(&vel_b), sb, hopts(&o)) }
+                   else { format!("{} {} {} {} {} {} {}", dx::hiso(&pos_b), dx::hv(&vel_b), sb, dx::hiso(&pos_hf), dx::hv(&vel_hf), tok, hopts(&o)) };
+        out.push(("e2e".to_string(), args));
+    }
+    out
+}
+
+/// `shape::RoundShapeRef` is crate-private: the same support map, written out (used only to record what
+/// `gjk::directional_distance` answers on the rounded first shape)
+struct RoundRef<'a> { inner_shape: &'a dyn px::shape::SupportMap, border_radius: f64 }
+impl px::shape::SupportMap for RoundRef<'_> {
+    fn local_support_point(&self, dir: &V) -> P { self.local_support_point_toward(&Unit::new_normalize(*dir)) }
+    fn local_support_point_toward(&self, dir: &Unit<V>) -> P { self.inner_shape.local_support_point_toward(dir) + **dir * self.border_radius }
+}
+
+/// the GJK-route cast with its three GJK-layer results recorded next to the arguments (`taps`), so that the model can
+/// reproduce everything the function does around them: zero / tiny relative velocity, target 0 / > 0 (rounded shape),
+/// `max_time_of_impact` below / at / above the GJK time, start-up contacts (touching, penetrating, within target) with all
+/// four flag combinations, approaching / separating / tangential velocities
+fn gen_smsm_case(r: &mut Rng, lat: bool) -> Option<(String, String)> {
+    use px::query::gjk::{self, VoronoiSimplex};
+    let zero = V::zeros();
+    let (s1, rad1) = gen_gjk_shape(r, lat, &zero);
+    let (s2, rad2) = gen_gjk_shape(r, lat, &zero);
+    let (g1, g2) = (mk(&s1), mk(&s2));
+    let (m1, m2) = (g1.as_support_map()?, g2.as_support_map()?);
+    let mut o = gen_opts(r, lat);
+    if r.below(3) == 0 { o.target_distance = 0.0; }
+    let mut pos12 = dx::gen_iso(r, lat, 1.0);
+    let dir = gen_unit(r, lat);
+    let reach = rad1 + rad2 + o.target_distance;
+    pos12.translation.vector = dir * (reach * *r.pick(&[0.0, 0.25, 0.5, 0.75, 1.0, 1.25, 2.0, 3.0]));
+    let sc = if lat { *r.pick(&[0.25, 1.0, 4.0]) } else { r.logu(1e-2, 1e2) };
+    let side = { let t = ortho(&dir); let n = t.norm(); if n > 0.0 { t / n } else { t } };
+    let vel = match r.below(10) {
+        0 => V::zeros(),
+        1 => dir * 1.0e-17,                                   // below the relative_eq! threshold
+        2 => -dir * (f64::EPSILON * *r.pick(&[0.5, 1.0, 2.0])),   // around it
+        3 | 4 | 5 => -dir * sc,
+        6 => dir * sc,
+        7 => side * sc,
+        8 => (-dir + side * *r.pick(&[0.25, 1.0])) * sc,
+        _ => dx::gen_v(r, lat, if lat { 1.0 } else { 20.0 }),
+    };
+    let round = RoundRef { inner_shape: m1, border_radius: o.target_distance };
+    // a start-up window hit with a positive time (0 < toi < 1e-5): speed the approach up
+    let mut vel = vel;
+    if r.below(5) == 0 {
+        let d0 = if o.target_distance > 0.0 { gjk::directional_distance(&pos12, &round, m2, &vel, &mut VoronoiSimplex::new()) }
+                 else { gjk::directional_distance(&pos12, m1, m2, &vel, &mut VoronoiSimplex::new()) };
+        if let Some((t, _, _, _)) = d0 { if t > 1.0e-5 && t < 1.0e3 { vel *= t / *r.pick(&[1.0e-6, 5.0e-6, 2.0e-5, 1.0e-5]); } }
+    }
+    let dd_plain = gjk::directional_distance(&pos12, m1, m2, &vel, &mut VoronoiSimplex::new());
+    let dd_round = gjk::directional_distance(&pos12, &round, m2, &vel, &mut VoronoiSimplex::new());
+    // max_time_of_impact ties with the GJK time
+    if let Some((t, _, _, _)) = if o.target_distance > 0.0 { dd_round } else { dd_plain } {
+        if t > 0.0 && t.is_finite() { match r.below(6) { 0 => o.max_time_of_impact = t, 1 => o.max_time_of_impact = f64::from_bits(t.to_bits() - 1), 2 | 3 | 4 => o.max_time_of_impact = t * 2.0, _ => {} } }
+    }
+    let c_t = px::query::details::contact_support_map_support_map(&pos12, m1, m2, o.target_distance);
+    let c_m = px::query::details::contact_support_map_support_map(&pos12, m1, m2, f64::MAX);
+    let fc = |c: &Option<px::query::Contact>| match c { None => "0".to_string(),
+        Some(c) => format!("1 {} {} {} {} {}", dx::hp(&c.point1), dx::hp(&c.point2), dx::hv(&c.normal1), dx::hv(&c.normal2), hx(c.dist)) };
+    let fd = |d: &Option<(f64, V, P, P)>| match d { None => "0".to_string(), Some((t, n, w1, w2)) => format!("1 {} {} {} {}", hx(*t), dx::hv(n), dx::hp(w1), dx::hp(w2)) };
+    Some(("smsm".into(), format!("{} {} {} {} {} {} {} {} shapes {} {}", dx::hiso(&pos12), dx::hv(&vel), hopts(&o), hx(vel.norm()), fc(&c_t), fd(&dd_plain), fd(&dd_round), fc(&c_m), s1, s2)))
+}
+
 pub fn gen(r: &mut Rng, thorough: bool) -> Vec<(String, String)> {
     let n = if thorough { 4000 } else { 400 };
     let mut v: Vec<(String, String)> = Vec::new();
@@ -562,5 +706,13 @@ pub fn gen(r: &mut Rng, thorough: bool) -> Vec<(String, String)> {
     }
     // ---- the broad-phase box test of the composite cast, on explicit boxes (bit-exact model + exact oracle)
     for it in 0..(if thorough { 12000 } else { 1200 }) { v.push(gen_cull_case(r, it % 2 == 0)); }
+    // ---- third follow-up: lattice starts over height fields (centre of the moving box exactly on grid lines / grid points)
+    let mut fam = std::collections::BTreeMap::new();
+    for it in 0..(if thorough { 2400 } else { 240 }) { v.extend(gen_hf_lattice_case(r, it % 4 != 3, &mut fam)); }
+    // ---- the trace of the 3-D height-field cell walk (bit-exact model + exact covering oracle)
+    v.extend(gen_hfwalk(r, thorough));
+    // ---- the exit conditions of the GJK-route cast around its GJK-layer calls (bit-exact glue model + clause oracle)
+    for it in 0..(if thorough { 12000 } else { 1200 }) { if let Some(c) = gen_smsm_case(r, it % 2 == 0) { v.push(c); } }
+    if std::env::var("C06_FAMILIES").is_ok() { for (k, n) in &fam { eprintln!("family {} {}", k, n); } }
     v
 }
